@@ -74,6 +74,10 @@ CHECKS = {
     text="the forced-interactive btcdeb (real main(), real kerl command table, isatty interposed) is driven through every prefix of steps of every plain script of up to 3 ops (thorough: 4) over a 12-symbol alphabet and of every synthesised spend type (legacy with scriptPubKey section, P2SH, P2WPKH, P2WSH, P2SH-wrapped, taproot key path, tapscript with several path lengths, real-chain pairs), and through every {step, rewind} history up to length 6/8; at every point the printed listing is compared line by line with the reference micro-step list, the marked line with the micro-step the next step actually performs (established from the tool's own stack change against the reference stacks), and the #NNNN echo with the marker",
     note="trusted: mc_gen session plans and mc_refcli stacks; rewind histories avoid the C04 defect classes (stated in the evidence)",
     tech="exhaustive exploration of the command-history graph of REPL sessions through the real binary with a reference micro-step model"),
+ "C15": dict(engine="c15_crash", cat="fault_enumeration", design="DESIGN.md §3 C15",
+    text="ASan+UBSan builds of btcdeb, btcc, tap and the forced-interactive btcdeb (plus a valgrind-memcheck slice for uninitialised reads) are run on every single deviation of ~120 valid base inputs (truncation at every position, deleted/duplicated arguments, length/count/index fields replaced by boundary values, empty and 10^4-character arguments, unbalanced brackets at every depth, option values) and on all pairs of deviations for the smallest bases; interactively on every command sequence of length <= 2 (thorough: 3) over a 32-symbol command alphabet on six sessions and on every tf transform x adversarial arguments; a run violates the property when the process dies by a signal, aborts, or the sanitizers/valgrind report an error",
+    note="deviation-bounded exhaustive enumeration, not fuzzing: every listed deviation of every base is executed; violation keys are (tool, error class, top in-tree frame) so distinct crash sites stay distinct; secp256k1 is compiled without sanitizers",
+    tech="deviation-bounded exhaustive fault/input enumeration with sanitizers as oracle"),
 }
 
 REASON_PENDING = "check under construction in this round; not claimed until its engine has run end-to-end"
@@ -104,7 +108,7 @@ def main():
         engines.setdefault(c["engine"], []).append(pid)
     m = {
         "version": 1,
-        "setup_cmd": "python3 harness/build.py all",
+        "setup_cmd": "python3 harness/build.py all && python3 harness/build.py --flavor asan btcdeb btcc tap btcdeb_tty",
         "hooks": {
             "guard": "BTCDEB_VERIF",
             "enable": "no source hooks are used: checks compile the working tree's own translation units out of tree (harness/build.py) and link them with the harness; forced-interactive btcdeb is obtained by interposing isatty() at link time",
